@@ -268,8 +268,13 @@ def apply_edit(model, edit):
             else:
                 new.append(p)
         for a in edit['add']:
-            new.append(Parameter.create(a['name'], fl(a['init']), lower=fl(a['lower']), upper=fl(a['upper']),
-                                        fix=a['fix']))
+            q = Parameter.create(a['name'], fl(a['init']), lower=fl(a['lower']), upper=fl(a['upper']),
+                                 fix=a['fix'])
+            pos = [k for k, x in enumerate(new) if x.name == a.get('before')]
+            if pos:                  # inserted in front of a named parameter (only Parameters.create can do that)
+                new.insert(pos[0], q)
+            else:
+                new.append(q)
         return model.replace(parameters=Parameters.create(new)).update_source()
     if op == 'replace':        # remove some thetas and add a new one in ONE update_source
         names = set(edit['names'])
@@ -385,8 +390,13 @@ def intended_new_thetas(cur, edit):
         ch = {c['name']: c for c in edit['changes']}
         ps = [Parameter(p.name, fl(ch[p.name]['init']), fl(ch[p.name]['lower']), fl(ch[p.name]['upper']),
                         ch[p.name]['fix']) if p.name in ch else p for p in ps if p.name not in set(edit['remove'])]
-        ps += [Parameter.create(a['name'], fl(a['init']), lower=fl(a['lower']), upper=fl(a['upper']), fix=a['fix'])
-               for a in edit['add']]
+        for a in edit['add']:
+            q = Parameter.create(a['name'], fl(a['init']), lower=fl(a['lower']), upper=fl(a['upper']), fix=a['fix'])
+            pos = [k for k, x in enumerate(ps) if x.name == a.get('before')]
+            if pos:
+                ps.insert(pos[0], q)
+            else:
+                ps.append(q)
     elif op == 'replace':
         ps = [p for p in ps if p.name not in set(edit['names'])] + [
             Parameter.create(edit['name'], fl(edit['init']), lower=fl(edit['lower']), upper=fl(edit['upper']),
@@ -1038,6 +1048,146 @@ def hdists_term(model):
     return ct.lst(items)
 
 
+
+# ---------------------------------------------------------------- the record plan of update_random_variable_records
+class PlanLog:
+    """Observes (in this process, by wrapping module attributes - /repo is not touched) every invocation of
+    update.update_random_variable_records: its inputs (the diff of distributions, len(record) of the records,
+    the two sets of parameter names, which distributions python finds "in" old_random_variables) and the
+    sequence of calls the loop makes: OmegaRecord.update / .remove, create_omega_single / create_omega_block."""
+
+    def __enter__(self):
+        import pharmpy.model.external.nonmem.update as U
+        from pharmpy.model.external.nonmem.records.omega_record import OmegaRecord
+        self.U, self.OR = U, OmegaRecord
+        self.invocations = []
+        self.cur = None
+        self.saved = (U.update_random_variable_records, U.create_omega_single, U.create_omega_block,
+                      OmegaRecord.update, OmegaRecord.remove)
+        o_urvr, o_single, o_block, o_upd, o_rem = self.saved
+        me = self
+
+        def key_of(inv, d):
+            for k, x in enumerate(inv['table']):
+                if x == d:
+                    return k
+            inv['table'].append(d)
+            return len(inv['table']) - 1
+
+        def urvr(model, rvs_diff, record_type):
+            rvs_diff = list(rvs_diff)
+            records = list(model.internals.control_stream.get_records(record_type))
+            old_rvs = model.internals.old_random_variables
+            if record_type == 'OMEGA':
+                old_names = list(old_rvs.etas.parameter_names)
+                new_names = list(model.random_variables.etas.parameter_names)
+            else:
+                old_names = list(old_rvs.epsilons.parameter_names)
+                new_names = list(model.random_variables.epsilons.parameter_names)
+            inv = {'table': [], 'records': records, 'lens': [len(r) for r in records], 'old_names': old_names,
+                   'new_names': new_names, 'log': [], 'raised': False, 'depth': 0}
+            inv['diff'] = [(o, key_of(inv, d)) for o, d in rvs_diff]
+            inv['in_old'] = [k for k, d in enumerate(inv['table']) if (d in old_rvs)]
+            prev, me.cur = me.cur, inv
+            try:
+                return o_urvr(model, iter(rvs_diff), record_type)
+            except Exception:
+                inv['raised'] = True
+                raise
+            finally:
+                me.cur = prev
+                me.invocations.append(inv)
+
+        def top(inv):
+            return inv is not None and inv['depth'] == 0
+
+        def call(inv, entry, f, *a):
+            if not top(inv):
+                return f(*a)
+            inv['log'].append(entry)
+            inv['depth'] += 1
+            try:
+                return f(*a)
+            finally:
+                inv['depth'] -= 1
+
+        def single(model, rv, eta_number):
+            inv = me.cur
+            return call(inv, ('single', key_of(inv, rv) if top(inv) else 0, eta_number), o_single, model, rv, eta_number)
+
+        def block(model, distribution, eta_number):
+            inv = me.cur
+            return call(inv, ('block', key_of(inv, distribution) if top(inv) else 0, eta_number), o_block,
+                        model, distribution, eta_number)
+
+        def rec_index(inv, rec):
+            for k, r in enumerate(inv['records']):
+                if r is rec:
+                    return k
+            return -1
+
+        def upd(self_, params):
+            inv = me.cur
+            entry = ('update', rec_index(inv, self_), [p.name for p in params]) if top(inv) else None
+            return call(inv, entry, o_upd, self_, params)
+
+        def rem(self_, inds):
+            inv = me.cur
+            entry = ('remove', rec_index(inv, self_), [i for i, _ in inds]) if top(inv) else None
+            return call(inv, entry, o_rem, self_, inds)
+
+        U.update_random_variable_records = urvr
+        U.create_omega_single = single
+        U.create_omega_block = block
+        OmegaRecord.update = upd
+        OmegaRecord.remove = rem
+        return self
+
+    def __exit__(self, *exc):
+        U, OmegaRecord = self.U, self.OR
+        (U.update_random_variable_records, U.create_omega_single, U.create_omega_block,
+         OmegaRecord.update, OmegaRecord.remove) = self.saved
+        return False
+
+
+def pdist_term(key, d):
+    k = len(d)
+    v = d.variance
+    names = [str(v)] if k == 1 else [str(v[r, c]) for r in range(k) for c in range(r + 1)]
+    return f"(mkPD {ct.nat(key)} {ct.nat(k)} {ct.lst([text_term(n) for n in names])})"
+
+
+def plan_terms(invocations):
+    """One pstep term per invocation of update_random_variable_records."""
+    out = []
+    for inv in invocations:
+        tab = inv['table']
+        opc = {0: 0, 1: 1, -1: 2}
+        dterm = ct.lst([ct.pair(f"{opc[o]}%nat", pdist_term(k, tab[k])) for o, k in inv['diff']])
+        acts = []
+        prev = None
+        for e in inv['log']:
+            # remove([]) returns the record itself: an update on the record just "removed" from is the
+            # update of the loop's flush (newrec.update(diag_change)), not records[recindex].update
+            after_remove = prev is not None and prev[0] == 'remove' and e[0] == 'update' and e[1] in (-1, prev[1])
+            prev = e
+            if e[0] == 'update':
+                if e[1] >= 0 and not after_remove:
+                    acts.append(f"(PUpdate {ct.nat(e[1])} (mkPD 0%nat 0%nat {ct.lst([text_term(n) for n in e[2]])}))")
+                else:
+                    acts.append(f"(PUpdateNew {ct.lst([text_term(n) for n in e[2]])})")
+            elif e[0] == 'remove':
+                acts.append(f"(PRemove {ct.nat(max(e[1], 0))} {ct.lst([ct.nat(i) for i in e[2]])})")
+            elif e[0] == 'single':
+                acts.append(f"(PSingle {pdist_term(e[1], tab[e[1]])} {ct.nat(e[2])})")
+            else:
+                acts.append(f"(PBlock {pdist_term(e[1], tab[e[1]])} {ct.nat(e[2])})")
+        out.append(f"(mkPS {ct.lst([ct.nat(k) for k in inv['in_old']])} {ct.lst([text_term(n) for n in inv['old_names']])} "
+                   f"{ct.lst([text_term(n) for n in inv['new_names']])} {ct.lst([ct.nat(n) for n in inv['lens']])} "
+                   f"{dterm} {ct.boolean(inv['raised'])} {ct.lst(acts)})")
+    return ct.lst(out)
+
+
 def hist_snapshot(model):
     out = []
     for dists in (list(model.random_variables.etas), list(model.random_variables.epsilons)):
@@ -1082,15 +1232,19 @@ def observe_hist_step(cur, op):
     before = [r.root for r in om_recs + si_recs]
     old_etas = list(cur.random_variables.etas)
     old_eps = list(cur.random_variables.epsilons)
-    try:
-        edited = apply_hist_op(cur, op)
-        status = 0
-    except ValueError as e:
-        edited, status = None, 1
-        info['edit_error'] = f'ValueError: {str(e)[:100]}'
-    except Exception as e:
-        edited, status = None, 2
-        info['edit_error'] = f'{type(e).__name__}: {str(e)[:100]}'
+    plog = PlanLog()
+    with plog:
+        try:
+            edited = apply_hist_op(cur, op)
+            code_inside = edited.code
+            status = 0
+        except ValueError as e:
+            edited, status = None, 1
+            info['edit_error'] = f'ValueError: {str(e)[:100]}'
+        except Exception as e:
+            edited, status = None, 2
+            info['edit_error'] = f'{type(e).__name__}: {str(e)[:100]}'
+    info['plans'] = len(plog.invocations)
     # which random effects lose their distribution (for a crash: those the operation names)
     gone = []
     if edited is not None:
@@ -1116,7 +1270,7 @@ def observe_hist_step(cur, op):
     mem = '[]'
     if edited is not None:
         mem = hdists_term(edited)
-        code = edited.code
+        code = code_inside
         info['code'] = code
         try:
             rm = read_model_from_string(code)
@@ -1135,7 +1289,7 @@ def observe_hist_step(cur, op):
             info['reread_error'] = f'{type(e).__name__}: {str(e)[:100]}'
             info['consistent'] = False
     term = ("(CHist (mkHS " + ct.lst([node_term(r) for r in before]) + " " + ct.lst([ct.nat(g) for g in gone]) + " "
-            + ct.nat(len(om_recs)) + f" {status}%nat " + mem + " " + rr + "))")
+            + ct.nat(len(om_recs)) + f" {status}%nat " + mem + " " + rr + " " + plan_terms(plog.invocations) + "))")
     return term, info, edited
 
 
